@@ -149,6 +149,7 @@ def explore(res, text, tags, rng, k, pool, model=None, sort_lists=False, prog=No
         seen.add(sig)
         side = "permuted" if sigt[2] is o else "baseline"
         m = DC.match_dict(sigt, tags, side)
+        m["file"] = name
         if prog is not None and sig in ("prob", "instances"):
             m["vanishes_single_query"] = vanishes_single_query(prog, spec, sort_lists)
             m["zero_prob_only"] = zero_prob_only(base, o)
@@ -210,6 +211,7 @@ def build_violation(sigt, spec, decisions, text, tags, prog, model, sort_lists, 
         extra["zero_prob_only"] = zero_prob_only(base, o)
     summary = "%s: %s" % (sig, sigt[1])
     m = DC.match_dict(sigt, tags, side)
+    m["file"] = name
     m.update(extra)
     return {
         "signature": sig, "summary": summary[:300],
@@ -313,6 +315,7 @@ def replay(doc):
     if doc.get("program_text"):
         tags = gen.tags_of_text(text) or tags
     m = DC.match_dict(sigt, tags, side)
+    m["file"] = name
     if sig in ("prob", "instances"):
         m["zero_prob_only"] = zero_prob_only(base, o)
     for k in ("vanishes_single_query",):
